@@ -19,7 +19,7 @@ from vk.symx import shims as SH
 from vk.symx.harness import decide, decide_true, native_pass
 from vk.symx.poly import Poly, VarFactory
 from props.C09_tdvp_sym import conj_arr, unit_vec, _obj
-from props.C12_tdvp_sym import frame, local_shape_of, dense_of, _TimeUp
+from props.C12_tdvp_sym import frame, local_shape_of, dense_of
 
 
 class TreeSweepRecorder:
@@ -31,6 +31,8 @@ class TreeSweepRecorder:
         return self.real is None
 
     def eigh_iterative(self, hop, hdiag, cguess, algo):
+        from vk.symx.harness import budget_check
+        budget_check()      # safe point: between two local problems
         n = len(cguess)
         cols = [np.asarray(_obj(hop(unit_vec(n, j, True))) if self.sym else hop(unit_vec(n, j, False))).ravel() for j in range(n)]
         amat = np.array(cols, dtype=object if self.sym else complex).T
@@ -143,21 +145,8 @@ def native_replay(a0c, H, Hn, procedure, order):
 
 
 def worker(case, led):
-    import signal
-    budget = case[4]
-
-    def _alarm(*a):
-        raise _TimeUp()
-    old = signal.signal(signal.SIGALRM, _alarm)
-    signal.alarm(budget)
-    try:
-        _worker(case, led)
-    except _TimeUp:
-        led.calls = [c for c in led.calls if c[0] != "crash"]
-        led.extra["skipped"] = [list(case[:3])]
-    finally:
-        signal.alarm(0)
-        signal.signal(signal.SIGALRM, old)
+    from vk.symx.harness import run_with_budget
+    run_with_budget(case[4], _worker, case, led, list(case[:3]))
 
 
 def _worker(case, led):
